@@ -423,13 +423,92 @@ def run_powerloss(behs, tier, tag):
                 groups[gid] = [head] + acked + revs
                 shutil.rmtree(sand, ignore_errors=True)
         shutil.rmtree(d, ignore_errors=True)
-        return groups
+        return groups, (beh["id"], beh["cfg"]["backend"], _io_stream(events))
 
-    allg = {}
-    for gr in C.parallel_map(job, list(range(len(behs))), workers=10):
+    allg, streams = {}, []
+    for gr, st in C.parallel_map(job, list(range(len(behs))), workers=10):
         allg.update(gr)
+        streams.append(st)
     shutil.rmtree(root, ignore_errors=True)
-    return allg
+    return allg, streams
+
+
+def _io_stream(events):
+    """Hook events as Trace_WalrusIO sees them: kind + file class, caller thread only."""
+    out = []
+    for e in events:
+        k, base = e["kind"], os.path.basename(e["path"])
+        if "topic_clean" in base:
+            continue
+        if k == "uring_write":
+            k = "write"
+        elif not e.get("counted"):
+            continue
+        if k in ("create", "set_len", "uring_submit", "unlink"):
+            continue
+        f = "wal" if base.isdigit() else ("idx" if "read_offset_idx" in base else "dir")
+        out.append({"k": k, "f": f})
+    return out
+
+
+def validate_io(streams, tag="iov"):
+    """TLC: is every recorded I/O stream a behaviour of the WalrusIO step protocol?"""
+    root = C.ensure_dir(os.path.join(C.BUILD, "runs", "%s-%d" % (tag, os.getpid())))
+    tr = os.path.join(root, "io.ndjson")
+    bounds, line = [], 0
+    with open(tr, "w") as f:
+        for bid, backend, evs in streams:
+            f.write(json.dumps({"k": "reset", "f": bid}) + "\n")
+            line += 1
+            first = line + 1
+            for e in evs:
+                f.write(json.dumps(e) + "\n")
+                line += 1
+            bounds.append((bid, first, line))
+    rc, out, wall = C.tlc(os.path.join(C.SPEC, "Trace_WalrusIO.tla"), os.path.join(C.SPEC, "Trace_WalrusIO.cfg"), root,
+                          env={"TRACE": tr}, workers=1, timeout=600, deque=True)
+    if "Error:" in out or rc != 0:
+        raise C.ToolError("TLC (Trace_WalrusIO) failed:\n" + out[-2000:])
+    import re as _re
+    reached = set(int(x) for x in _re.findall(r'<<"AT", (\d+)>>', out))
+    gen, dist = C.tlc_stats(out)
+    drift = []
+    for bid, first, last in bounds:
+        if (last + 1) not in reached:
+            k = max([x for x in reached if first <= x <= last + 1] or [first])
+            drift.append((bid, k - first))
+    shutil.rmtree(root, ignore_errors=True)
+    return drift, dist
+
+
+def design_mc_io():
+    """TLC on the durability design WalrusIO: the fixed protocol holds, the variant without the
+    directory sync after the index rename must be rejected (vacuity guard)."""
+    spec = os.path.join(C.SPEC, "WalrusIO.tla")
+    key = C.hash_files([spec] + [os.path.join(C.SPEC, "MC_WalrusIO_%s.cfg" % n) for n in ("ok_fd", "ok_mmap", "defect_nodirsync")])
+    cache = os.path.join(C.ensure_dir(os.path.join(C.BUILD, "cache")), "mc_io_%s.json" % key)
+    if os.path.exists(cache):
+        return json.load(open(cache))
+    res = {"states": 0, "transitions": 0, "configs": {}}
+    for n in ("ok_fd", "ok_mmap", "defect_nodirsync"):
+        rc, out, wall = C.tlc(spec, os.path.join(C.SPEC, "MC_WalrusIO_%s.cfg" % n), os.path.join(C.BUILD, "runs", "mc_io_%d" % os.getpid()),
+                              workers=2, extra=["-coverage", "1"], timeout=300)
+        gen, dist = C.tlc_stats(out)
+        violated = "is violated" in out
+        if n.startswith("ok") and (violated or dist == 0):
+            raise C.ToolError("WalrusIO %s: invariants do not hold:\n%s" % (n, out[-1500:]))
+        if n.startswith("defect") and not violated:
+            raise C.ToolError("WalrusIO %s: the defective protocol is not rejected (vacuous)" % n)
+        if n.startswith("ok"):
+            cov = C.tlc_coverage(out)
+            dead = [a for a, (d, t) in cov.items() if a[0].isupper() and a not in ("Init", "TypeOK") and not a.startswith("Inv") and t == 0]
+            if dead:
+                raise C.ToolError("WalrusIO %s: actions never enabled: %s" % (n, dead))
+        res["states"] += dist
+        res["transitions"] += gen
+        res["configs"][n] = {"states": dist, "violated": violated}
+    json.dump(res, open(cache, "w"))
+    return res
 
 
 def _inflight(op, max_batch):
@@ -461,7 +540,11 @@ def c10(tier):
         b = G.gen_behaviour(r, "crashw", "tiny", "pl%d" % i, cfg, length=r.randint(4, 9), safe_first=True)
         b["cfg"]["proj"] = False
         behs.append(b)
-    groups = run_powerloss(behs, tier, "c10")
+    io_mc = design_mc_io()
+    groups, streams = run_powerloss(behs, tier, "c10")
+    drift, io_states = validate_io(streams)
+    for bid, at in drift[:5]:
+        print("MODEL-DRIFT: the I/O stream of workload %s leaves the WalrusIO step protocol at event %d" % (bid, at))
     verd, stats = E.validate(groups, tag="c10v", drop=("reclaim", "counts", "is_clean"))
     groups = {g: [e for e in evs if e.get("ev") not in ("reclaim", "counts", "is_clean")] for g, evs in groups.items()}
     byid = {b["id"]: b for b in behs}
@@ -496,6 +579,8 @@ def c10(tier):
                 "process that drains every topic; TLC validates (acknowledged events, Crash(inflight), post-recovery reads) against WalrusAPI; "
                 "non-trivial = reconstructed states with at least one unsynced directory operation",
         "workloads": len(behs), "contract_model": mc, "trace_tlc_states": stats["states_distinct"], "rejected_traces": len(failed),
+        "design_model_WalrusIO": io_mc, "io_streams_validated_against_WalrusIO": len(streams), "io_stream_tlc_states": io_states,
+        "drift": len(drift),
     }
     return ck.finish("fault_enumeration", coverage, PE.COMMON_ASSUMPTIONS + [
         "power-loss model of the property statement: explicit syncs (fsync, msync, O_SYNC writes, directory fsync) are durable, every other "
